@@ -341,4 +341,58 @@ example : DM.Model.Enc.run (symbolList (List.range 30)) []
     .ok ([230, 89, 233, 109, 36, 254, 142, 164, 186, 208, 231, 10, 97, 248, 142, 37, 187, 82, 238, 89, 233, 0, 43, 254], 11) := by
   decide +kernel
 
+/-! ## Mixed plans with EDIFACT as the final stretch
+
+`mixed_roundtrip_E` extends `mixed_roundtrip` to plans `front ++ edis` in which the front part is as
+above (no EDIFACT) and `edis` names EDIFACT only — the shape `…, (p, E), (0, E)` the optimiser
+produces when it finishes a message in EDIFACT. Side conditions: as before no latch to a non-ASCII
+mode (EDIFACT included) is scheduled for the last four characters, and the characters an EDIFACT
+entry covers are EDIFACT characters (32 … 94; the encoder model does not check this, and the round
+trip is false otherwise). Proof: `EdiGen.ediLoop_gen` (the EDIFACT encoder started at any position
+after any codewords with an EDIFACT-only rest plan ends in one of the three ways of `EdiRT.EdiEnd`),
+and two further situations of the main-loop invariant `MainRT.MI true` behind an EDIFACT run
+(`ediAscii`: at most two ASCII codewords still fit, the decoder leaves EDIFACT mode without UNLATCH;
+`final`: everything written, the padding the symbol needs is long enough for the decoder to see the
+group with the UNLATCH value). `C40Gen.planOKEb` is an executable check of the side condition. -/
+
+open DM.Lemmas.C40Gen in
+theorem mixed_roundtrip_E (list : List Sym) (body cw : List Nat) (plan : List (Nat × DM.Model.Enc.EMode)) (sym : Sym)
+    (hb : ∀ b ∈ body, b < 256)
+    (hplan : ∃ front edis, plan = front ++ edis ∧
+      (∀ e ∈ front, (e.2 ≠ .ascii → e.1 = 0 ∨ e.1 > 4) ∧ e.2 ≠ .edifact) ∧
+      (∀ e ∈ edis, e.2 = .edifact ∧ (e.1 = 0 ∨ e.1 > 4) ∧ ∀ x ∈ body.drop (body.length - e.1), 32 ≤ x ∧ x ≤ 94))
+    (h : DM.Model.Enc.run list [] body plan = .ok (cw, sym)) :
+    DM.Model.Dec.decodeData cw = .ok body :=
+  DM.Lemmas.MainRT.general_roundtrip_E list body cw plan sym hb hplan h
+
+/-- the same with the executable side condition -/
+theorem mixed_roundtrip_Eb (list : List Sym) (body cw : List Nat) (plan : List (Nat × DM.Model.Enc.EMode)) (sym : Sym)
+    (hb : ∀ b ∈ body, b < 256) (hplan : DM.Lemmas.C40Gen.planOKEb body plan = true)
+    (h : DM.Model.Enc.run list [] body plan = .ok (cw, sym)) :
+    DM.Model.Dec.decodeData cw = .ok body :=
+  DM.Lemmas.MainRT.general_roundtrip_E list body cw plan sym hb (DM.Lemmas.C40Gen.planOKE_of_check body plan hplan) h
+
+/-- Non-vacuity: the side condition holds and the run succeeds for Base 256 / Text followed by
+EDIFACT, with each of the four endings of the EDIFACT run (UNLATCH in the last group; complete
+quadruples filling the symbol, no UNLATCH; the last character handed to ASCII; two quadruples, two
+characters and the UNLATCH value followed by padding). -/
+example : DM.Lemmas.C40Gen.planOKEb [200, 201, 202, 203, 204, 205, 206, 65, 66, 67, 68, 69, 70]
+    [(13, .base256), (6, .edifact), (0, .edifact)] = true := by decide
+example : DM.Model.Enc.run (symbolList (List.range 30)) [] [200, 201, 202, 203, 204, 205, 206, 65, 66, 67, 68, 69, 70]
+    [(13, .base256), (6, .edifact), (0, .edifact)] =
+    .ok ([231, 51, 137, 32, 182, 77, 228, 122, 17, 240, 4, 32, 196, 20, 103, 192], 6) := by decide +kernel
+example : DM.Lemmas.C40Gen.planOKEb [200, 201, 202, 203, 204, 205, 206, 65, 66, 67, 68, 69, 70, 71, 72]
+    [(15, .base256), (8, .edifact), (0, .edifact)] = true := by decide
+example : DM.Model.Enc.run (symbolList (List.range 30)) [] [200, 201, 202, 203, 204, 205, 206, 65, 66, 67, 68, 69, 70, 71, 72]
+    [(15, .base256), (8, .edifact), (0, .edifact)] =
+    .ok ([231, 51, 137, 32, 182, 77, 228, 122, 17, 240, 4, 32, 196, 20, 97, 200], 6) := by decide +kernel
+example : DM.Lemmas.C40Gen.planOKEb [97, 98, 99, 100, 101, 102, 103, 65, 66, 67, 68, 69, 70, 71, 72, 73]
+    [(16, .text), (9, .edifact), (0, .edifact)] = true := by decide
+example : DM.Model.Enc.run (symbolList (List.range 30)) [] [97, 98, 99, 100, 101, 102, 103, 65, 66, 67, 68, 69, 70, 71, 72, 73]
+    [(16, .text), (9, .edifact), (0, .edifact)] =
+    .ok ([239, 89, 233, 109, 36, 125, 71, 254, 240, 4, 32, 196, 20, 97, 200, 74], 6) := by decide +kernel
+example : DM.Model.Enc.run (symbolList (List.range 30)) [] [49, 50, 51, 52, 65, 66, 67, 68, 69, 70, 71, 72, 73, 74]
+    [(10, .edifact), (0, .edifact)] =
+    .ok ([142, 164, 240, 4, 32, 196, 20, 97, 200, 36, 167, 192], 5) := by decide +kernel
+
 end DM.Props.C01
